@@ -58,7 +58,7 @@ def _case(draw):
         elif k == 'cancel':
             ops.append(['cancel', draw(st.integers(0, 5))])
         else:
-            ops.append(['expect', draw(st.sampled_from(['EA', 'EA', 'EB'])), draw(st.booleans()), draw(st.sampled_from(['any', 'any', 'odd', 'big', 'never', 'boom'])), draw(st.sampled_from(['never', 'never', 'never', 'odd', 'big', 'boom'])), draw(st.sampled_from(['any', 'any', 'any', 'odd'])), draw(st.sampled_from([None, 0.0625, 0.3125, 1.0625]))])
+            ops.append(['expect', draw(st.sampled_from(['EA', 'EA', 'EB'])), draw(st.booleans()), draw(st.sampled_from(['any', 'any', 'odd', 'big', 'never', 'boom'])), draw(st.sampled_from(['never', 'never', 'never', 'odd', 'big', 'boom'])), draw(st.sampled_from(['any', 'any', 'any', 'odd'])), draw(st.sampled_from([None, 0.0625, 0.3125, 1.0625, 0, 0.0]))])
     return {'ops': ops, 'hd': draw(st.sampled_from([0, 0.05, 0.2])), 'par': draw(st.integers(0, 4)) == 0}
 
 
@@ -173,7 +173,8 @@ def run_case(c):
                     rec['cancel_seq'] = tick()
                     rec['task'].cancel()
             # record processing end for events (status complete)
-        await asyncio.sleep(3.0)
+        # let the bus work off everything that was dispatched (serial: hd per event) before judging the final state
+        await asyncio.sleep(3.0 + len(evs) * (c['hd'] + 0.05))
         for rec in exps:
             if not rec['task'].done():
                 rec['forced'] = True
@@ -224,7 +225,11 @@ def run_case(c):
                         decided = True
                         break
             if not decided:
-                if C is not None and (D is None or C < D):
+                if C is not None and D is not None and C == D:
+                    # cancellation and deadline at the same instant (only possible with timeout=0): either may win
+                    possible.append(('cancelled',))
+                    possible.append(('timeout',))
+                elif C is not None and (D is None or C < D):
                     possible.append(('cancelled',))
                 elif D is not None:
                     possible.append(('timeout',))
